@@ -19,6 +19,11 @@
  *   files     post-run scan of the home directory: every regular file that the case description does not list (hex of
  *             the path relative to the home; a file inside a directory called tmp/new/cur is reported as <dir>/ followed by '*')
  *             and every listed regular file whose size or content changed ('~' + hex name); sorted; "-" = none
+ *   aux       <now>:<user hex>:<home hex>:<inherited>   values the harness derives from the blob (hash): the clock the program
+ *             sees (time() is scripted), argv[1], the home path, and the environment the program is started with
+ *             (';'-separated hex of NAME=value, "-" = empty)
+ *   fenv      the whole `environ` of the main process after the run (hex of NAME=value, comma separated, "-" = empty)
+ *   cenv      the whole `environ` of the first command child at its execv("/bin/sh") ("-" = no command was run)
  * A case whose home directory cannot be realised as described prints "<doit> <blob> SKIP".
  */
 #include "hcommon.h"
@@ -28,12 +33,18 @@
 #include <errno.h>
 #include <dirent.h>
 #include <signal.h>
+#include <time.h>
 
 static pid_t k_mainpid;
+static time_t k_now;
+static int k_nfork;
+static time_t c13_time(time_t *p) { if (p) *p = k_now; return k_now; }
+static pid_t c13_fork(void) { k_nfork++; return fork(); }
 static jmp_buf k_jb;
 static int k_exitcode;
 static int k_evpipe[2];
-static hbuf k_out, k_err, k_opens, k_ev, k_stats;
+static hbuf k_out, k_err, k_opens, k_ev, k_stats, k_cenv;
+static int k_cenv_done;
 
 __attribute__((noreturn)) static void c13_exit(int c) {
   if (getpid() != k_mainpid) _exit(c);          /* a forked child really exits */
@@ -52,6 +63,8 @@ static int c13_execv(const char *path, char *const argv[]);
 #define stat(p, b) c13_stat(p, b)
 #define chdir(p) c13_chdir(p)
 #define execv(p, a) c13_execv(p, a)
+#define time(p) c13_time(p)
+#define fork() c13_fork()
 #define main qmail_local_main
 #include "qmail-local.c"
 #undef main
@@ -59,6 +72,8 @@ static int c13_execv(const char *path, char *const argv[]);
 #undef stat
 #undef chdir
 #undef execv
+#undef time
+#undef fork
 
 extern int subgetoptind, subgetoptpos;
 
@@ -107,7 +122,9 @@ static void k_drain(void) {
   while (have - pos >= 3) {
     size_t n = (b[pos + 1] << 8) | b[pos + 2];
     if (have - pos < 3 + n) break;
-    k_event(b[pos], b + pos + 3, n); pos += 3 + n;
+    if (b[pos] == 'E') { if (!k_cenv_done) k_hexlist(&k_cenv, b + pos + 3, n); }
+    else { if (b[pos] == 'P' && k_cenv.n) k_cenv_done = 1; k_event(b[pos], b + pos + 3, n); }
+    pos += 3 + n;
   }
   memmove(b, b + pos, have - pos); have -= pos;
 }
@@ -137,7 +154,11 @@ static int c13_chdir(const char *p) {
   return chdir(p);
 }
 static int c13_execv(const char *path, char *const argv[]) {
-  if (getpid() != k_mainpid) k_childevent('P', argv[2] ? argv[2] : "");
+  if (getpid() != k_mainpid) {
+    /* the real environment of the real command child, as execv() hands it to /bin/sh (first two forks of a case only) */
+    if (k_nfork <= 2) for (char **e = environ; *e; e++) k_childevent('E', *e);
+    k_childevent('P', argv[2] ? argv[2] : "");
+  }
   return execv(path, argv);
 }
 
@@ -363,6 +384,39 @@ static int parse_blob(char *b) {
   return 0;
 }
 
+/* ---------------------------------------------------------------- values derived from the blob (so that a replay sees the same) */
+static uint64_t k_hash(void) {
+  uint64_t h = 1469598103934665603ull;
+  const char *fs[] = { K.homemode, K.k_dash, K.k_ext, K.k_host, K.k_local, K.k_sender, K.k_alias };
+  for (int i = 0; i < 7; i++) { for (const char *c = fs[i]; *c; c++) { h ^= (unsigned char)*c; h *= 1099511628211ull; } h ^= 0xff; h *= 1099511628211ull; }
+  for (int i = 0; i < K.nf; i++) { for (const char *c = K.f[i].name; *c; c++) { h ^= (unsigned char)*c; h *= 1099511628211ull; } h ^= K.f[i].clen & 255; h *= 1099511628211ull; }
+  h ^= K.msglen & 0xffff; h *= 1099511628211ull; h ^= K.doit; h *= 1099511628211ull;
+  return h ^ (h >> 29);
+}
+static const char *USERS[] = { "u", "alice", "U.x-1" };
+static const char *INHERIT[] = { "DEFAULT=stale", "EXT=old-ext", "PATH=/bin:/usr/bin", "NEWSENDER=evil@x", "HOST2=zz", "FOO=bar baz", "SENDER=",
+  "DEFAULTX=1", "UFLINE=From x", "LANG=C" };
+#define NINHERIT 10
+static const long long CLOCKS[] = { 0, 1, 59, 3599, 86399, 86400, 5097599, 5097600, 68255999, 68256000, 951782399, 951782400, 951868800,
+  1000000000, 1078099199, 1709251199, 2147483647, 2147483648LL, 4102444799LL, 4102444800LL, 4107542399LL, 4107542400LL, 32503679999LL, 253402300799LL };
+#define NCLOCKS (sizeof CLOCKS / sizeof CLOCKS[0])
+static const char *k_user; static unsigned k_inherit;
+static void k_derive(void) {
+  uint64_t h = k_hash();
+  switch (h & 3) {
+    case 0: k_now = CLOCKS[(h >> 8) % NCLOCKS]; break;
+    case 1: k_now = (h >> 8) % 253402300800ull; break;
+    default: k_now = (h >> 8) % 2147483648ull; break;
+  }
+  k_user = USERS[(h >> 2) % 3];
+  k_inherit = ((h >> 4) & 3) == 0 ? (unsigned)((h >> 40) & 1023) : 0;
+}
+static void emit_environ(void) {
+  int n = 0;
+  for (char **e = environ; e && *e; e++) { if (n++) fputc(',', h_out); put_hex(*e, strlen(*e)); }
+  if (!n) fputc('-', h_out);
+}
+
 /* ---------------------------------------------------------------- one case */
 static void env_field(const char *name, int first) {
   char *v = env_get((char *)name);
@@ -377,15 +431,17 @@ static void one(void) {
   if (K.msglen && pwrite(0, K.msg, K.msglen, 0) != K.msglen) {}
   lseek(0, 0, SEEK_SET);
   /* reset everything the program dirties */
-  hbuf_reset(&k_out); hbuf_reset(&k_err); hbuf_reset(&k_opens); hbuf_reset(&k_ev); hbuf_reset(&k_stats);
+  hbuf_reset(&k_out); hbuf_reset(&k_err); hbuf_reset(&k_opens); hbuf_reset(&k_ev); hbuf_reset(&k_stats); hbuf_reset(&k_cenv);
+  k_cenv_done = 0; k_nfork = 0; k_derive();
   k_ss.p = 0;
   subgetoptind = 1; subgetoptpos = 0;
   count_file = count_forward = count_program = 0; mailforward_qp = 0;
   flag99 = 0; flagdoit = 1;
   env_clear();
+  for (int i = 0; i < NINHERIT; i++) if (k_inherit >> i & 1) if (!env_put((char *)INHERIT[i])) {}
   char *argv[12]; int n = 0;
   argv[n++] = "qmail-local"; if (!K.doit) argv[n++] = "-n";
-  argv[n++] = "u"; argv[n++] = k_home; argv[n++] = K.k_local; argv[n++] = K.k_dash; argv[n++] = K.k_ext;
+  argv[n++] = (char *)k_user; argv[n++] = k_home; argv[n++] = K.k_local; argv[n++] = K.k_dash; argv[n++] = K.k_ext;
   argv[n++] = K.k_host; argv[n++] = K.k_sender; argv[n++] = K.k_alias; argv[n] = 0;
   k_exitcode = -1;
   if (setjmp(k_jb) == 0) { qmail_local_main(n, argv); k_exitcode = -2; }
@@ -407,6 +463,13 @@ static void one(void) {
   k_postscan();
   if (!k_nscan) fputc('-', h_out);
   for (int i = 0; i < k_nscan; i++) { if (i) fputc(',', h_out); fputs(k_scan[i], h_out); }
+  fprintf(h_out, " %lld:", (long long)k_now);
+  put_hex(k_user, strlen(k_user)); fputc(':', h_out); put_hex(k_home, strlen(k_home)); fputc(':', h_out);
+  { int m = 0; for (int i = 0; i < NINHERIT; i++) if (k_inherit >> i & 1) { if (m++) fputc(';', h_out); put_hex(INHERIT[i], strlen(INHERIT[i])); }
+    if (!m) fputc('-', h_out); }
+  fputc(' ', h_out); emit_environ();
+  fputc(' ', h_out);
+  if (k_cenv.n) fwrite(k_cenv.p, 1, k_cenv.n, h_out); else fputc('-', h_out);
   fputc('\n', h_out);
 }
 
@@ -773,6 +836,21 @@ static void generate(int level, int nrandom, uint64_t seed) {
           one();
         }
   }
+  /* (8) the environment of a real command child: every near-miss extension x every host shape x senders, one command line
+         in the file that is found (.qmail-default, for some extensions the exact name / a longer -default file as well) */
+  for (unsigned e = 0; e < NEXTS; e++)
+    for (unsigned hs = 0; hs < NHOSTS; hs++)
+      for (int v = 0; v < 3; v++) {
+        if (!mine()) continue;
+        k_clear(); K.doit = 1; strcpy(K.k_ext, EXTS[e]); strcpy(K.k_host, HOSTS[hs]); set_msg("Subject: t\n\nb\n");
+        if (v == 1) strcpy(K.k_local, "u\nX: y"); else set_local_std();
+        strcpy(K.k_sender, SENDERS[(e + hs * 5 + v * 7) % NSENDERS]);
+        add_file(".qmail-default", 'f', 0600, "|exit 0\n", 8);
+        if (v == 2) { add_file(".qmail-a-default", 'f', 0600, "|exit 0\n&f@x\n", 13); add_file(".qmail-a-owner", 'f', 0600, "", 0);
+                      if (e & 1) add_file(".qmail-a-owner-default", 'f', 0600, "", 0); }
+        if (v == 0 && (e % 3) == 0) add_file(".qmail-a-b-default", 'f', 0600, "|exit 99\n", 9);
+        one();
+      }
   /* (7) seeded random cases: mostly -n, one in six a real delivery */
   h_seed(seed * 1000003ull + g_shard);
   for (int r = 0; r < nrandom; r++) {
